@@ -25,14 +25,14 @@ def env_offline():
     return e
 
 
-def build_harness(verbose=False):
+def build_harness(verbose=False, pkg="vh"):
     """Incremental offline build of the harness (path deps on /repo => always the working tree)."""
     os.makedirs(TARGET, exist_ok=True)
     lock = open(os.path.join(TARGET, ".check.lock"), "w")
     fcntl.flock(lock, fcntl.LOCK_EX)
     try:
         t0 = time.time()
-        p = subprocess.run(["cargo", "build", "--release", "--offline"], cwd=HARNESS, env=env_offline(),
+        p = subprocess.run(["cargo", "build", "--release", "--offline", "-p", pkg], cwd=HARNESS, env=env_offline(),
                            stdout=subprocess.PIPE, stderr=subprocess.STDOUT, text=True)
         if p.returncode != 0:
             log(p.stdout[-6000:])
@@ -214,6 +214,11 @@ def main(argv):
     try:
         if argv[0] == "--setup":
             build_harness(verbose=True)
+            for extra in ("vcert",):
+                try:
+                    build_harness(verbose=True, pkg=extra)
+                except Machinery as e:
+                    log("warning: %s (only the checks that need it are affected)" % e)
             build_repo_bins(verbose=True)
             log("setup ok")
             return 0
@@ -238,7 +243,7 @@ def main(argv):
         except ValueError:
             seed = 0
         t0 = time.time()
-        build_harness()
+        build_harness(pkg=plan.get("pkg", "vh"))
         if plan.get("needs_repo_bins"):
             build_repo_bins()
         scratch = os.path.join(TARGET, "scratch", "%s_%d" % (prop, os.getpid()))
